@@ -385,12 +385,39 @@ def _owner_index(fn: ast.AST, blk: List[ast.stmt]):
     return None
 
 
+def live_in(stmts: Sequence[ast.stmt], nm: str, noreturn: Set[str]) -> Optional[bool]:
+    """Running `stmts` from their start: True when nm may be read before it is bound again, False when it is bound
+    again (or the block ends the function) before any read on every path, None when control falls off the end
+    without either."""
+    for s in stmts:
+        if isinstance(s, ast.Assign) and len(s.targets) == 1 and isinstance(s.targets[0], ast.Name) and s.targets[0].id == nm:
+            return bool(_uses(s.value, nm))
+        if isinstance(s, ast.If):
+            if _uses(s.test, nm):
+                return True
+            a = live_in(s.body, nm, noreturn)
+            b = live_in(s.orelse, nm, noreturn)
+            if a is True or b is True:
+                return True
+            if a is False and b is False:
+                return False
+            continue
+        if _uses(s, nm):
+            return True
+        if isinstance(s, (ast.For, ast.AsyncFor, ast.While, ast.Try, ast.With, ast.AsyncWith, ast.Match, ast.FunctionDef, ast.AsyncFunctionDef, ast.ClassDef)):
+            continue  # not read inside; a binding inside may or may not happen: keep looking
+        if _ends([s], noreturn):
+            return False
+    return None
+
+
 def live_after(fn: ast.AST, blk: List[ast.stmt], j: int, nm: str, noreturn: Set[str]) -> bool:
     """May a load of nm execute after blk[j] completes?  Conservative."""
     while True:
         rest = blk[j + 1 :]
-        if _uses(rest, nm):
-            return True
+        r = live_in(rest, nm, noreturn)
+        if r is not None:
+            return r
         if rest and _ends(rest, noreturn):
             return False
         up = _owner_index(fn, blk)
@@ -420,6 +447,23 @@ def collapse_rebinding_chains(fn: ast.AST, noreturn: Set[str]) -> int:
                 if nm.startswith("__"):
                     continue
                 nxt = blk[i + 1]
+                if isinstance(nxt, ast.If):
+                    # `n = e; if T(n): A else: B` with n read once, first, in the test and dead in A, B and afterwards
+                    if _uses(nxt.test, nm) != 1 or not _first_evaluated_use(ast.Expr(nxt.test), nm) or _closure_uses(fn, nm):
+                        continue
+                    a = live_in(nxt.body, nm, noreturn)
+                    b = live_in(nxt.orelse, nm, noreturn)
+                    if a is True or b is True:
+                        continue
+                    if (a is None or b is None) and live_after(fn, blk, i + 1, nm, noreturn):
+                        continue
+                    if len(_store_nodes(fn, nm)) == 1:
+                        continue
+                    nxt.test = _Subst(nm, st.value).visit(nxt.test)
+                    del blk[i]
+                    changed += 1
+                    did = True
+                    break
                 if _uses(nxt, nm) != 1 or not _first_evaluated_use(nxt, nm):
                     continue
                 if isinstance(nxt, (ast.For, ast.AsyncFor, ast.While, ast.If, ast.Try, ast.With)):
